@@ -86,3 +86,83 @@ Definition check_proof (c : proof_case) : N :=
      else if iv =? 1 then negb (rsel =? 1) && claims_ok mr ks (map to_query qs) else true) in
   let rs := map run obs in
   code (agree_prove && forallb fst rs) (forallb snd rs).
+
+(* ---- layered model (SMT/Layered.v) against the real node store ----
+   The harness dumps the DB after every Update of a small history: (sub-tree root hash, encoded sub-tree bytes).
+   The layered model runs the same history; its store, encoded as subtree.go encode does, must be the same set. *)
+From LE Require Import SMT.Layered.
+Definition lnode : Type := @snode (list N) hsh.
+Definition lflat : Type := list (nat * lnode).
+Definition lstore : Type := list (hsh * lflat).
+Definition node_bytes (x : lnode) : list N :=
+  match x with NE => [2] | NL k v => 0 :: from_bools k ++ v | NS s => 1 :: s end.
+Definition enc_bytes (c : lflat) : list N :=
+  (N.of_nat (length c - 1) mod 256) :: map (fun e => N.of_nat (fst e)) c ++ flat_map (fun e => node_bytes (snd e)) c.
+(* subtree.go newSubTree: leaf = 0x00 key(kl) value(32), stub = 0x01 hash(32), empty = 0x02 *)
+Fixpoint dec_nodes (fuel kl : nat) (d : list N) : option (list lnode) :=
+  match fuel with
+  | O => None
+  | S f =>
+    match d with
+    | [] => Some []
+    | 0 :: r => match dec_nodes f kl (skipn (kl + 32) r) with
+                | Some ns => if Nat.eqb (length (firstn (kl + 32) r)) (kl + 32)
+                             then Some (NL (to_bools (firstn kl r)) (firstn 32 (skipn kl r)) :: ns) else None
+                | None => None end
+    | 1 :: r => match dec_nodes f kl (skipn 32 r) with
+                | Some ns => if Nat.eqb (length (firstn 32 r)) 32 then Some (NS (firstn 32 r) :: ns) else None
+                | None => None end
+    | 2 :: r => match dec_nodes f kl r with Some ns => Some (NE :: ns) | None => None end
+    | _ => None
+    end
+  end.
+Definition dec_bytes (kl : nat) (d : list N) : option lflat :=
+  match d with
+  | [] => None
+  | b :: r =>
+    let nl := S (N.to_nat b) in
+    let str := firstn nl r in
+    match dec_nodes (S (length r)) kl (skipn nl r) with
+    | Some ns => if Nat.eqb (length str) nl && Nat.eqb (length ns) nl
+                 then Some (combine (map N.to_nat str) ns) else None
+    | None => None
+    end
+  end.
+
+Definition lupdate (sh lv : nat) := @layered_update (list N) hsh hempty hleafk hbranch bytes_eqb sh lv.
+Definition labs (sh lv : nat) := @abs (list N) hsh hempty bytes_eqb sh lv.
+
+Definition dump : Type := list (hsh * list N).
+Fixpoint dget (r : hsh) (d : dump) : option (list N) :=
+  match d with [] => None | (r', c) :: t => if bytes_eqb r r' then Some c else dget r t end.
+Definition store_eq (m : lstore) (d : dump) : bool :=
+  Nat.eqb (length m) (length d) &&
+  forallb (fun e => match dget (fst e) d with Some b => bytes_eqb (enc_bytes (snd e)) b | None => false end) m.
+Definition dump_store (kl : nat) (d : dump) : lstore :=
+  flat_map (fun e => match dec_bytes kl (snd e) with Some c => [(fst e, c)] | None => [] end) d.
+(* oracle: every sub-tree reachable from the implementation's root is in the implementation's store, and the trie read
+   back through the store hashes to that root *)
+Definition dump_ok (sh lv kl : nat) (iroot : hsh) (d : dump) : bool :=
+  match labs sh lv (dump_store kl d) iroot with
+  | Some t => bytes_eqb (thash t) iroot
+  | None => false
+  end.
+
+(* (key length in bytes, sub-tree height, batches with the implementation's root and store dump after each) *)
+Definition store_case : Type := N * N * list (list wop * hsh * dump).
+Fixpoint run_store (sh lv kl : nat) (st : option (lstore * hsh)) (bs : list (list wop * hsh * dump)) : bool * bool :=
+  match bs with
+  | [] => (true, true)
+  | (b, iroot, d) :: rest =>
+    let st' := match st with Some sr => lupdate sh lv sr (map to_op b) | None => None end in
+    let agree := match st' with Some (m, r) => bytes_eqb r iroot && store_eq m d | None => false end in
+    let '(a, o) := run_store sh lv kl st' rest in
+    (agree && a, dump_ok sh lv kl iroot d && o)
+  end.
+Definition check_store (c : store_case) : N :=
+  let '(kl, sh, bs) := c in
+  let klb := N.to_nat kl in
+  let shn := N.to_nat sh in
+  let lv := Nat.div (8 * klb) shn in
+  let '(a, o) := run_store shn lv klb (Some ([], hempty)) bs in
+  code a o.
